@@ -94,6 +94,59 @@ def clippy_cross(repo=runner.REPO):
         shutil.rmtree(tmp, ignore_errors=True)
 
 
+def _job(args):
+    import contextlib, io
+    from . import selftest
+    kind, ident, prop = args
+    with contextlib.redirect_stdout(io.StringIO()):
+        if kind == "mutant" or kind == "own-benign":
+            m = [x for x in selftest.load_mutants(kind == "own-benign") if x["id"] == ident][0]
+            r = selftest.run_mutant(m, [prop])
+        else:
+            r = selftest.run_patch_dir(kind, ident, [prop])
+    return kind, ident, r
+
+
+def change_selftest(prop):
+    """Both directions, on scratch copies of the current tree, 12 at a time:
+    - breaking changes (registered mutants of `prop`, sub-agent changes stored under seeded/ for `prop`): is each reported?
+    - behaviour-preserving refactorings (engine/mutants/benign.json, benign_seeded/): does `prop` stay silent?
+    Recorded in the evidence; never influences the exit status."""
+    from concurrent.futures import ProcessPoolExecutor
+    from . import selftest
+    jobs = []
+    for m in selftest.load_mutants():
+        if prop in m["properties"]:
+            jobs.append(("mutant", m["id"], prop))
+    sd = os.path.join(runner.VERIF, "seeded")
+    for sid in sorted(os.listdir(sd)) if os.path.isdir(sd) else []:
+        try:
+            meta = json.load(open(os.path.join(sd, sid, "meta.json")))
+        except (OSError, ValueError):
+            continue
+        if meta.get("property") == prop and os.path.exists(os.path.join(sd, sid, "patch.diff")):
+            jobs.append(("seeded", sid, prop))
+    for m in selftest.load_mutants(True):
+        jobs.append(("own-benign", m["id"], prop))
+    for sid in selftest.benign_seeded_ids():
+        jobs.append(("benign_seeded", sid, prop))
+    expect = {m["id"]: m.get("expect_rules", []) for m in selftest.load_mutants()}
+    out = {"mutants": [], "seeded": [], "refactorings": []}
+    with ProcessPoolExecutor(12) as ex:
+        for kind, ident, r in ex.map(_job, jobs):
+            fired = (r.get("fired") or {}).get(prop, []) if r["status"] == "ran" else None
+            if kind == "mutant":
+                if fired is None:
+                    out["mutants"].append({"mutant": ident, "status": r["status"], "why": r.get("why", "")[:200]})
+                else:
+                    out["mutants"].append({"mutant": ident, "status": "reported" if fired else "NOT REPORTED", "rules": fired, "expected": [x for x in expect.get(ident, []) if x.startswith("R" + prop[1:])]})
+            elif kind == "seeded":
+                out["seeded"].append({"change": ident, "status": r["status"] if fired is None else ("reported" if fired else "NOT REPORTED"), "rules": sorted({x.split(":")[0] for x in fired}) if fired else []})
+            else:
+                out["refactorings"].append({"refactoring": ident, "status": r["status"] if fired is None else ("FALSE ALARM" if fired else "silent"), "rules": fired or []})
+    return out
+
+
 def mutant_selftest(prop):
     """Apply each registered mutant of `prop` to a scratch copy of the current tree and record whether
     the property's rules report it.  Never influences the exit status."""
